@@ -180,7 +180,8 @@ def r4(ctx):
         raise AnchorError("handle_unsolicited_response: duplicate arm")
     region = region_of(bd, darm[0])
     ctx.check(ex[0].idx not in region and not calls_in_blocks(prog, bd, region, r"extract_measurements|ReadHandler"), "unsol:duplicate:no-delivery", "a duplicate is not delivered", bd.where(darm[0].edge[1]))
-    rets = [(b, e) for b, si, st, e in ret_sites(bd, sym) if b.idx in region]
+    after = bd.reachable(darm[0].edge[1])
+    rets = [(b, e) for b, si, st, e in ret_sites(bd, sym) if b.idx in after]
     ctx.check(bool(rets) and all(const_value(prog, e) == 1 for _, e in rets), "unsol:duplicate:confirmed", "a duplicate still returns true (confirm)", bd.where(darm[0].edge[1]))
     # the stored fragment is the new one
     for c in call_sites(bd, r"Option::replace$"):
